@@ -1,7 +1,28 @@
 from check import run_diff_property
 
+
+def tree_broken(o, i):
+    """the implementation's own final structure is not a tree rooted at stream 0 (a concrete failing input)"""
+    for tok in i.split(' '):
+        if tok.startswith('tree='):
+            par = {}
+            for n in tok[5:].split(','):
+                f = n.split('/')
+                if len(f) >= 2:
+                    par[f[0]] = f[1]
+            for n in par:
+                seen, x = set(), n
+                while x != '0':
+                    if x in seen or x not in par or par[x] == '-':
+                        return True
+                    seen.add(x)
+                    x = par[x]
+    return False
+
 CFG = dict(
-    streams=[('sched', 1500, 30000, 'http2test')],
+    streams=[('sched', 1500, 30000, 'http2test'), ('prio', 1500, 30000, 'http2test')],
+    corpus_exec={'d7_idle_open_evicted.ops': 'http2test'},
+    self_evident=tree_broken,
     oracle_ops=set(),
     twophase_ops={'sched'},
     http2_ops={'sched'},
@@ -9,10 +30,16 @@ CFG = dict(
           "control / push control naming a stream / stream and connection window updates incl. negative / max frame size / pop; "
           "5..130 operations, up to 12 open streams) against the real round-robin and random schedulers through package-internal "
           "access; every Pop result and the final connection window compared with the model; for the random scheduler the model "
-          "follows the implementation's choice after checking it is admissible. non-trivial = sequence with >= 1 pop after a push"),
+          "follows the implementation's choice after checking it is admissible. prio: the same operations plus AdjustStream (any "
+          "dependency incl. self, descendants, unknown and idle ids; weights 0..255; exclusive flag) on at most 11 stream ids "
+          "against the real priority scheduler in 50 configurations (closed / idle retention 0,1,2,4,10; throttling on/off), "
+          "comparing every Pop and, at the end, the whole structure: map, parent of every node, sibling ORDER (after the "
+          "float64 comparator and re-sorting), weights, states, byte counters, queue lengths, retention lists, throttle limit. "
+          "non-trivial = sequence with >= 1 pop after a push"),
     assumptions=[
         "the scheduler interface is used as the server uses it (one goroutine; streams opened before DATA is pushed)",
         "Go map iteration order (random scheduler) is treated as an arbitrary choice among ready streams",
+        "priority scheduler: sort.Sort is modelled as insertion sort, which is what Go's pdqsort does for <= 12 elements; the generator keeps every sibling list within that bound",
     ],
     nontrivial=lambda o, i: 'pd' in o and ';x' in o,
 )
